@@ -434,8 +434,6 @@ def enumerate_jobs(tier, seed):
 
     draw_specs()
     for i, spec in enumerate(specs):
-        if any(gen_designspace.float_inverse_overshoots_maximum(a, d) for m in spec["masters"] for a, d in zip(spec["axes"], m["loc"])):
-            continue
         J.append(dict(pipe="genbuild", name="genbuild:%d" % i, spec=to_jsonable(spec), cost=150000))
     for i in range(300 if thorough else 40):
         ps = subseed(seed, "c16-genfea", i)
